@@ -12,6 +12,11 @@ VERIF = os.path.dirname(os.path.dirname(os.path.abspath(__file__)))
 KNOWN_FINDINGS = os.path.join(VERIF, "known_findings.json")
 
 
+def outroot() -> str:
+    """Where evidence/ and out/ are written (redirected by the self-test harness)."""
+    return os.environ.get("HCVERIF_OUT") or VERIF
+
+
 class Obligation:
     __slots__ = ("rule", "key", "ok", "where", "detail", "witness")
 
@@ -95,7 +100,7 @@ class Report:
                 matched.setdefault(kf["id"], []).append(o)
             else:
                 new.append(o)
-        outdir = os.path.join(VERIF, "out", self.prop)
+        outdir = os.path.join(outroot(), "out", self.prop)
         os.makedirs(outdir, exist_ok=True)
         for fn in os.listdir(outdir):
             if fn.startswith("violation-"):
@@ -162,7 +167,7 @@ class Report:
             "wall_s": round(time.time() - self.t0, 3),
             "violations": nviol,
         }
-        os.makedirs(os.path.join(VERIF, "evidence"), exist_ok=True)
-        with open(os.path.join(VERIF, "evidence", f"{self.prop}.json"), "w", encoding="utf-8") as f:
+        os.makedirs(os.path.join(outroot(), "evidence"), exist_ok=True)
+        with open(os.path.join(outroot(), "evidence", f"{self.prop}.json"), "w", encoding="utf-8") as f:
             json.dump(ev, f, indent=1, default=str)
             f.write("\n")
